@@ -488,23 +488,19 @@ def pyInt (cs : List Char) : Option Nat :=
   let groups := splitOnChar '_' cs
   if groups.all isDigits then some (digitsVal (cs.filter (· != '_'))) else none
 
-/-- `_parse_example` + `ExampleRecord.__init__` -/
-def parseExample (s : PS) : Except Err (Example × PS) := do
-  let (_, s) ← consume .example s
-  let (database, s) ← consumeId s
-  let (accession, s) ← consumeId s
-  let (_, s) ← consume .dot s
-  let (version, s) ← consumeInt s
-  let (range, s) ← consume .text s
-  let (compound, s) ← (match s.cur with
-    | none => pure ([], s)
-    | some c =>
-      match skipText c s.rest [] with
-      | none => .error .syntax
-      | some (skipped, c', rest') => pure (skipped, { s with cur := some c', rest := rest' })
-    : Except Err (List Tok × PS))
-  let compoundName := if compound.isEmpty then none else some (" ".intercalate (compound.map (·.text)))
-  match splitOnChar '-' range.text.toList with
+/-- the raw loop over the compound name of an EXAMPLE: nothing to skip at the end of the input,
+    otherwise up to the next rule keyword (running out of input is an error) -/
+def skipFree (s : PS) : Except Err (List Tok × PS) :=
+  match s.cur with
+  | none => pure ([], s)
+  | some c =>
+    match skipText c s.rest [] with
+    | none => .error .syntax
+    | some (skipped, c', rest') => pure (skipped, { s with cur := some c', rest := rest' })
+
+/-- the checks at the end of `_parse_example` and `ExampleRecord.__init__`: start and end of the range -/
+def exampleRange (database : String) (version : Nat) (range : String) : Except Err (Nat × Nat) :=
+  match splitOnChar '-' range.toList with
   | [a, b] =>
     match pyInt a with
     | none => .error .syntax
@@ -515,8 +511,26 @@ def parseExample (s : PS) : Except Err (Example × PS) := do
         if database != "NCBI" then .error .attr
         else if version < 1 then .error .attr
         else if !(start ≤ stop) then .error .attr
-        else pure (⟨database, accession, version, start, stop, compoundName⟩, s)
+        else pure (start, stop)
   | _ => .error .syntax
+
+def mkExample (database accession : String) (version : Nat) (range : String) (compound : List Tok) :
+    Except Err Example := do
+  let (start, stop) ← exampleRange database version range
+  let compoundName := if compound.isEmpty then none else some (" ".intercalate (compound.map (·.text)))
+  pure ⟨database, accession, version, start, stop, compoundName⟩
+
+/-- `_parse_example` + `ExampleRecord.__init__` -/
+def parseExample (s : PS) : Except Err (Example × PS) := do
+  let (_, s) ← consume .example s
+  let (database, s) ← consumeId s
+  let (accession, s) ← consumeId s
+  let (_, s) ← consume .dot s
+  let (version, s) ← consumeInt s
+  let (range, s) ← consume .text s
+  let (compound, s) ← skipFree s
+  let e ← mkExample database accession version range.text compound
+  pure (e, s)
 
 /-- `while self.current_token.type == TokenTypes.EXAMPLE` (a `None` token is an AttributeError) -/
 def examplesLoop : Nat → List Example → PS → Except Err (List Example × PS)
@@ -618,8 +632,7 @@ def ruleEnd (s : PS) : Except Err Unit :=
   | none => pure ()
 
 /-- `_parse_rule` (without the multipliers, applied by the caller) -/
-def parseRule (cfg : Cfg) (s : PS) : Except Err (Rule × PS) := do
-  let fuel := s.budget
+def parseRuleWith (fuel : Nat) (cfg : Cfg) (s : PS) : Except Err (Rule × PS) := do
   let ((name, category), s) ← parseHead cfg s
   let ((description, examples, related, superiors), s) ← parseMeta fuel s
   let ((cutoff, neighbourhood), s) ← parseDistances s
@@ -633,6 +646,9 @@ def parseRule (cfg : Cfg) (s : PS) : Except Err (Rule × PS) := do
   if extendersNegative extenders then .error .value else
   pure ({ name, category, cutoff, neighbourhood, conditions,
           description, examples, superiors, related, extenders }, s)
+
+/-- `_parse_rule` with the fuel computed from the remaining input -/
+def parseRule (cfg : Cfg) (s : PS) : Except Err (Rule × PS) := parseRuleWith s.budget cfg s
 
 /-- the `while` loop of `_parse_alias` -/
 def aliasLoop : Nat → List Tok → PS → Except Err (List Tok × PS)
@@ -649,8 +665,7 @@ def aliasLoop : Nat → List Tok → PS → Except Err (List Tok × PS)
         aliasLoop fuel (acc ++ [c']) s
 
 /-- `_parse_alias` -/
-def parseAlias (s : PS) : Except Err ((String × List Tok) × PS) := do
-  let fuel := s.budget
+def parseAliasWith (fuel : Nat) (s : PS) : Except Err ((String × List Tok) × PS) := do
   let (_, s) ← consume .define s
   if s.curAliased then .error .syntax else
   let (name, s) ← consumeId s
@@ -658,6 +673,8 @@ def parseAlias (s : PS) : Except Err ((String × List Tok) × PS) := do
   let (toks, s) ← aliasLoop fuel [] s
   if toks.isEmpty then .error .syntax else
   pure ((name, toks), s)
+
+def parseAlias (s : PS) : Except Err ((String × List Tok) × PS) := parseAliasWith s.budget s
 
 /-- `_verify_alias_name` -/
 def verifyAliasName (cfg : Cfg) (rules : List Rule) (name : String) : Except Err Unit :=
